@@ -426,7 +426,7 @@ def loc_arguments_specs(prop='C06'):
 def flush_structural(rep, prop='C02'):
     """C02.flush.raw_put (structural, all of src/fst): a _put_src call WITHOUT the tail argument splices text without
     offsetting - and therefore without the cache flush the offset walk performs.  Every such call on a live tree must be
-    followed immediately (next statement of the same block) by `<same receiver>._touchall(True, ...)`, which flushes the
+    followed, later in the same block and before control can leave it, by `<same receiver>._touchall(True, ...)`, which flushes the
     whole parent chain (a block statement's cached `bloc` includes the line comment of its last child).  Receivers that
     are private copies / trees under construction are exempt and listed."""
     import ast
@@ -449,11 +449,18 @@ def flush_structural(rep, prop='C02'):
                     if recv.split('.')[0] in PRIVATE:
                         exempt.append((mod, fn.name, n.lineno, recv))
                         continue
-                    nxt = stmts[i + 1] if i + 1 < len(stmts) else None
-                    ok = (isinstance(nxt, ast.Expr) and isinstance(nxt.value, ast.Call)
-                          and isinstance(nxt.value.func, ast.Attribute) and nxt.value.func.attr == '_touchall'
-                          and ast.unparse(nxt.value.func.value) == recv and nxt.value.args
-                          and isinstance(nxt.value.args[0], ast.Constant) and nxt.value.args[0].value is True)
+                    ok = False
+                    for nxt in stmts[i + 1:]:      # later in the same block, before control can leave it
+                        if isinstance(nxt, (ast.Return, ast.Raise, ast.Break, ast.Continue)):
+                            break
+                        if (isinstance(nxt, ast.Expr) and isinstance(nxt.value, ast.Call)
+                                and isinstance(nxt.value.func, ast.Attribute) and nxt.value.func.attr == '_touchall'
+                                and ast.unparse(nxt.value.func.value) == recv and nxt.value.args
+                                and isinstance(nxt.value.args[0], ast.Constant) and nxt.value.args[0].value is True):
+                            ok = True
+                            break
+                        if any(isinstance(x, (ast.Return, ast.Raise)) for x in ast.walk(nxt)):
+                            break                  # a nested exit before the flush: not accepted
                     sites.append((mod, fn.name, n.lineno - fn.lineno, recv, ok))
             for fld in ('body', 'orelse', 'finalbody'):
                 sub = getattr(st, fld, None)
